@@ -159,6 +159,45 @@ fn hash_of<T: Hash + ?Sized>(t: &T) -> u64 {
     h.finish()
 }
 
+/// A `Hasher` that keeps the write_* calls apart (FNV over (method tag, bytes)): `Borrow<[u8]>`-keyed maps are
+/// generic over the hasher, so the agreement with the slice's hash must not depend on `write_usize`,
+/// `write_u64` and `write` being folded the same way (they are by SipHash on 64-bit targets, not on 32-bit ones).
+struct TraceHasher(u64);
+impl TraceHasher {
+    fn feed(&mut self, tag: u8, b: &[u8]) {
+        self.0 = (self.0 ^ tag as u64).wrapping_mul(0x100000001b3);
+        for &x in b {
+            self.0 = (self.0 ^ x as u64).wrapping_mul(0x100000001b3);
+        }
+        self.0 = (self.0 ^ 0xff ^ b.len() as u64).wrapping_mul(0x100000001b3);
+    }
+}
+impl Hasher for TraceHasher {
+    fn finish(&self) -> u64 {
+        self.0
+    }
+    fn write(&mut self, b: &[u8]) {
+        self.feed(1, b)
+    }
+    fn write_u8(&mut self, i: u8) {
+        self.feed(2, &[i])
+    }
+    fn write_u32(&mut self, i: u32) {
+        self.feed(3, &i.to_le_bytes())
+    }
+    fn write_u64(&mut self, i: u64) {
+        self.feed(4, &i.to_le_bytes())
+    }
+    fn write_usize(&mut self, i: usize) {
+        self.feed(5, &(i as u64).to_le_bytes())
+    }
+}
+fn trace_hash_of<T: Hash + ?Sized>(t: &T) -> u64 {
+    let mut h = TraceHasher(0xcbf29ce484222325);
+    t.hash(&mut h);
+    h.finish()
+}
+
 macro_rules! family {
     ($c:expr, $T:literal, $bx:expr, $by:expr, $x:expr, $y:expr, $ux:expr, $uy:expr) => {{
         let bx = &$bx;
@@ -201,6 +240,9 @@ macro_rules! family {
         $c.o.add("hashes", 1);
         if hash_of(bx) != hash_of(x) {
             $c.bad(concat!($T, " hash"), "hash", format!("{:x}", hash_of(bx)), format!("{:x}", hash_of(x)));
+        }
+        if trace_hash_of(bx) != trace_hash_of(x) {
+            $c.bad(concat!($T, " hash"), "hash-generic-hasher", format!("{:x}", trace_hash_of(bx)), format!("{:x}", trace_hash_of(x)));
         }
         let bor: &[u8] = std::borrow::Borrow::borrow(bx);
         if bor != x {
